@@ -159,6 +159,24 @@ impl Property for C16 {
         })?;
         let distinct = |v: &[Share]| -> usize { v.iter().map(|s| layout::parse_share(&s.to_bytes()).unwrap().x).collect::<BTreeSet<_>>().len() };
         let d_own = distinct(&own);
+        // ---- collections of ONE share and of two copies of one share: recover only for t = 1
+        if !own.is_empty() && tid == 0 {
+            let one = vec![own[ctx.ch.index(own.len())].clone()];
+            let twice = vec![one[0].clone(), one[0].clone()];
+            for (name, coll) in [("a single share", &one), ("two copies of one share", &twice)] {
+                let r = recover(coll);
+                if t == 1 {
+                    match r {
+                        Ok(c) if c.get_message() == m => ctx.stats.probe("single_share_recovers_t1"),
+                        _ => return Err(Violation::new("c16.recover", "t1_single_share", format!("{} of a threshold-1 sharing did not recover the message", name))),
+                    }
+                } else if r.is_ok() {
+                    return Err(Violation::new(if t == 0 { "c16.t0" } else { "c16.recover" }, if t == 0 { "t0_recovers" } else { "subthreshold_ok" }, format!("{} recovered a threshold-{} sharing", name, t)));
+                } else {
+                    ctx.stats.probe("single_share_refused");
+                }
+            }
+        }
         // ---- recovery
         let res = recover(&own);
         if t == 0 {
